@@ -703,6 +703,39 @@ def _model(case, spec, img, isolist, mech, recover_ok):
 # ================================================================================================
 # class: full fit_image
 # ================================================================================================
+def _corner_samples(case, spec, img):
+    """(viii) every corner case: EllipseSample (bilinear and nearest_neighbor) at the true geometry with an sma
+    whose path leaves the frame on the near sides, for the image and its three mirror images (views with negative
+    strides), i.e. with the galaxy nearer each of the four corners in turn."""
+    from photutils.isophote import EllipseSample
+    rng = case.rng
+    ny, nx = img.shape
+    m = min(nx, ny)
+    for flipx in (False, True):
+        for flipy in (False, True):
+            view = img[::-1 if flipy else 1, ::-1 if flipx else 1]
+            mon = np.ascontiguousarray(view)
+            x0 = nx - 1 - spec['x0'] if flipx else spec['x0']
+            y0 = ny - 1 - spec['y0'] if flipy else spec['y0']
+            pa = spec['pa']
+            if flipx:
+                pa = math.pi - pa
+            if flipy:
+                pa = -pa
+            pa = pa % math.pi
+            near = ('left' if x0 < nx / 2 else 'right') + '+' + ('bottom' if y0 < ny / 2 else 'top')
+            for mode in ('nearest_neighbor', 'bilinear'):
+                sma = float(rng.uniform(0.45, 0.62) * m)
+                mech = dict(integrmode=mode, op='EllipseSample', galaxy_near=near)
+                s_ = EllipseSample(view, sma, x0=x0, y0=y0, eps=spec['eps'], position_angle=pa, integrmode=mode)
+                ok, _ = _lib(case, mech, s_.extract)
+                if not ok:
+                    continue
+                s_.mean = float(np.mean(s_.values[2])) if len(s_.values[2]) else float('nan')
+                _sample_checks(case, mon, s_, mode, mech, judge_values=True)
+                case.note('axis2_corner_samples_' + near, 1)
+
+
 def _fit_case(case):
     from photutils.isophote import Ellipse, EllipseGeometry
     spec = gen.draw(case.rng, case.cls, case.tier)
@@ -767,6 +800,8 @@ def _fit_case(case):
         case.note('axis_magnitude_big_values', 1)      # (judged like any other case since /repo 9396a95)
     if axes['pa_form'] in ('negative', 'above_pi'):
         mech['pa_form'] = axes['pa_form']
+    if case.cls == 'corner':
+        _corner_samples(case, spec, img)
     geom = EllipseGeometry(g_x0, g_y0, g_sma, init['eps'], g_pa, **gkw)
     if axes.get('geometry_history'):
         # (x) a geometry object that was used before: sector bookkeeping mutated, polar transforms evaluated, copied
